@@ -49,6 +49,10 @@ func (pass *DisjunctionWithNullToOptional) processDisjunction(_ *Visitor, _ *ast
 	// type | null
 	finalType := nonNullTypes[0]
 	finalType.Nullable = true
+	// the default value of the disjunction applies to the remaining type
+	if finalType.Default == nil && def.Default != nil {
+		finalType.Default = def.Default
+	}
 	finalType.AddToPassesTrail(fmt.Sprintf("DisjunctionWithNullToOptional[%[1]s|null → %[1]s?]", ast.TypeName(finalType)))
 
 	return finalType, nil
